@@ -182,6 +182,16 @@ class ValueLV:
 def ev_call(eng, node, st):
     fn = node.func
     if isinstance(fn, ast.Call) and isinstance(fn.func, ast.Name) and fn.func.id == "type" and len(fn.args) == 1 \
+            and len(node.args) == 2 and not node.keywords and eng.reg.specfuns.get("type_call_ref2"):
+        # type(x)(v, u): construction of an object of x's class from two arguments (Quantity: value and unit)
+        outs = []
+        for s, vals in eng.ev_seq([fn.args[0], node.args[0], node.args[1]], st):
+            if isinstance(vals, Raise):
+                outs.append((s, vals))
+            else:
+                outs += eng.reg.specfuns["type_call_ref2"](eng, s, vals[0], vals[1], vals[2])
+        return outs
+    if isinstance(fn, ast.Call) and isinstance(fn.func, ast.Name) and fn.func.id == "type" and len(fn.args) == 1 \
             and len(node.args) == 1 and not node.keywords:
         # type(x)(v): a value of x's own type built from v (used as "zero of the same type")
         outs = []
@@ -486,7 +496,8 @@ def _sb_typeis_builtin(eng, st, x, name):
 
 def _sb_isfresh(eng, st, r):
     """the reference denotes an object allocated by this call (not one that existed in the pre-state)"""
-    return mk_bool(r.t >= eng.A0)
+    base = eng.old_state.nalloc if eng.old_state is not None else 0
+    return mk_bool(r.t >= eng.A0 + base)
 
 
 def _sb_instance(eng, st, x, c):
